@@ -29,3 +29,5 @@ def run(ck):
     fresh.constructor_state(ck, "C20.R2")            # an explicit overflow='wrap' reaches the final configuration
     routes.numpy_dispatch_transparent(ck, "C15.R5")  # the numpy route computes what the direct call computes (exact integers before wrap)
     sizes.init_size_relation(ck, "C06.R1")            # registers built from (signed, n_int, n_frac) keep the word they were given, n_int == 0 included
+    routes.who_writes_codes(ck, "C02.R1")               # every write of codes goes through set_val (and so through wrap)
+    fresh.no_hidden_state(ck, "C20.R8")                  # results depend on the documented state only (no caches / memos)
